@@ -4,5 +4,5 @@ EXTENDS Reject, TLC, Json, IOUtils
 SetToSeq(S) == CHOOSE f \in [1..Cardinality(S) -> S] : \A a, b \in 1..Cardinality(S) : a # b => f[a] # f[b]
 RECURSIVE ToSeq(_)
 ToSeq(S) == IF S = {} THEN <<>> ELSE LET x == CHOOSE x \in S : TRUE IN <<x>> \o ToSeq(S \ {x})
-ASSUME ndJsonSerialize(IOEnv.OUT, ToSeq(Instances))
+ASSUME ndJsonSerialize(IOEnv.OUT, ToSeq(Instances \cup Controls))
 =============================================================================
